@@ -15,3 +15,10 @@ OBLS.append(Obl('C18.has_tabs_or_newline.complete@ssse3/b64', ['C18', 'C01', 'C0
 OBLS.append(Obl('C18.try_parse_ipv4_fast.exact@avx512', ['C18', 'C10', 'C02'], 'P#', 'c10/ipv4_fast.c', roots=['try_parse_ipv4_fast'], cfg='avx512', bufn=18, unwind=20,
                 includes=INC + ['spec/ref_host.h'], defines=['FASTFN=try_parse_ipv4_fast'], globals=[('ipv4_fast_fail', 'const unsigned long')], solver='kissat', timeout=1800,
                 note='AVX-512 masked-load kernel + trusted converter satisfy the same contract as the scalar path (canonical dotted decimal, Standard\'s value); lengths 0..18'))
+
+INC6 = ['spec/urlspec.h', 'spec/scan.h', 'spec/ref_host.h']
+for bn, tier, grade in ((16, 'quick', 'B(16)'), (46, 'thorough', 'P#')):
+    OBLS.append(Obl('C18.ipv6_structure_plausible.sound@avx512' + ('/b%d' % bn if bn != 46 else ''), ['C18', 'C10', 'C02'], grade, 'c10/ipv6_prefilter.c',
+                    roots=['ipv6_structure_plausible'], cfg='avx512', bufn=bn, unwind=bn + 2, includes=INC6, solver='kissat', timeout=6000, tier=tier,
+                    bound=('host text <= %d bytes' % bn) if bn != 46 else None,
+                    note='AVX-512 IPv6 prefilter never rejects what the Standard\'s IPv6 parser accepts' + ('' if bn != 46 else ' (every length the function admits: it rejects > 45 itself)')))
